@@ -207,7 +207,7 @@ static const char *get_token(int ki, int h, int sk, int *refvalid)
 }
 
 /* ---- callbacks ------------------------------------------------------------- */
-typedef struct { const jwk_item_t *key; int alg; int mode; int calls; int seen_alg; int seen_key; } cbctx_t;
+typedef struct { const jwk_item_t *key; int alg; int mode; int calls; int seen_alg; int seen_key; int warm_alg; long total; } cbctx_t;
 static int the_cb(jwt_t *jwt, jwt_config_t *config)
 {
 	cbctx_t *c = config->ctx;
@@ -219,6 +219,7 @@ static int the_cb(jwt_t *jwt, jwt_config_t *config)
 	case 1: config->key = c->key; config->alg = (jwt_alg_t)c->alg; break;
 	case 2: config->key = c->key; break;
 	case 3: config->alg = (jwt_alg_t)c->alg; break;
+	case 4: config->key = c->key; config->alg = (jwt_alg_t)(c->total++ == 0 ? c->warm_alg : c->alg); break;	/* same key, another alg from the second call on */
 	default: break;
 	}
 	return 0;
@@ -246,6 +247,17 @@ static void inspect_token(const char *tok, const vh_key_t *k, int *halg, int *th
 		/* decode header to find alg */
 		vh_key_t dummy; memset(&dummy, 0, sizeof(dummy)); dummy.kind = VH_K_OCT; dummy.oct = (unsigned char *)"";
 		vh_ref_token_valid(&dummy, tok, halg);
+	}
+}
+
+static int natural_alg(const vh_key_t *k)
+{
+	switch (k->kind) {
+	case VH_K_OCT: return k->bits >= 512 ? JWT_ALG_HS512 : k->bits >= 384 ? JWT_ALG_HS384 : JWT_ALG_HS256;
+	case VH_K_RSA: return JWT_ALG_RS256;
+	case VH_K_RSAPSS: return JWT_ALG_PS256;
+	case VH_K_EC: return !strcmp(k->crv, "secp256k1") ? JWT_ALG_ES256K : k->bits == 256 ? JWT_ALG_ES256 : k->bits == 384 ? JWT_ALG_ES384 : k->bits == 521 ? JWT_ALG_ES512 : JWT_ALG_ES256;
+	default: return JWT_ALG_EDDSA;
 	}
 }
 
@@ -360,7 +372,7 @@ int main(int argc, char **argv)
 
 		if (op_v) {
 			jwt_checker_t *chk = jwt_checker_new();
-			cbctx_t cx = { item, cfg, 0, 0, 0, 0 };
+			cbctx_t cx = { item, cfg, 0, 0, 0, 0, 0, 0 };
 			int setkey_rc = -1, eff_alg = JWT_ALG_NONE, eff_key = 0, e_ki = ki, e_kalg = kalg, e_pub = pub;
 			if (!chk) vh_harness_fail("checker_new");
 			switch (route) {
@@ -383,6 +395,28 @@ int main(int argc, char **argv)
 			case 5: case 6: case 7:
 				setkey_rc = setkey_history(chk, 0, idx, prov, route, cfg, ki, kalg, pub, item, &eff_alg, &eff_key, &e_ki, &e_kalg, &e_pub);
 				break;
+			case 9: {	/* history on one checker: the callback supplies the same key with the key's natural alg once (a valid
+					 * token of that alg is verified), then with the cell's alg: what passed for one alg says nothing about another */
+				cx.mode = 4; cx.warm_alg = z->present ? natural_alg(&z->k) : JWT_ALG_NONE;
+				jwt_checker_setcb(chk, the_cb, &cx); eff_alg = cfg; eff_key = item != NULL;
+				if (z->present) {
+					char wh[96], *wt;
+					snprintf(wh, sizeof(wh), "{\"alg\":\"%s\"}", vh_alg_name(cx.warm_alg));
+					wt = vh_ref_token(&z->k, cx.warm_alg, wh, "{\"sub\":\"warm-up\"}");
+					if (wt) { jwt_checker_verify(chk, wt); free(wt); } else cx.total = 1;
+				} else cx.total = 1;
+				if (cx.total == 0) cx.total = 1;	/* the warm-up never reached the callback */
+				break;
+			}
+			case 8: {	/* preset by setkey(none, another key that names its alg), then the callback replaces key and alg */
+				const jwk_item_t *o;
+				if (other_ki < 0) vh_harness_fail("route 8 needs oct:64 in the zoo");
+				o = get_item(prov, other_ki, JWT_ALG_HS512, 0);
+				if (do_setkey(chk, 0, JWT_ALG_NONE, o)) vh_harness_fail("route 8 preset refused");
+				log_setkey(0, idx, prov, route, JWT_ALG_NONE, other_ki, JWT_ALG_HS512, 0, 0, chk);
+				cx.mode = 1; jwt_checker_setcb(chk, the_cb, &cx); eff_alg = cfg; eff_key = item != NULL;
+				break;
+			}
 			}
 			if (route < 5) printf("[\"S\",%ld,%d,%d,%d,%d,%d,%d,%d,%d]\n", idx, prov, route, cfg, ki, kalg, pub, setkey_rc, jwt_checker_error(chk));
 			jwt_checker_error_clear(chk);
@@ -412,7 +446,7 @@ int main(int argc, char **argv)
 		}
 		if (op_g) {
 			jwt_builder_t *b = jwt_builder_new();
-			cbctx_t cx = { item, cfg, 0, 0, 0, 0 };
+			cbctx_t cx = { item, cfg, 0, 0, 0, 0, 0, 0 };
 			int setkey_rc = -1, eff_alg = JWT_ALG_NONE, eff_key = 0, e_ki = ki, e_kalg = kalg, e_pub = pub;
 			char *tok;
 			int halg = -2, third_empty = 0, refvalid = 0, shape_ok = 0, ef;
@@ -438,6 +472,24 @@ int main(int argc, char **argv)
 			case 5: case 6: case 7:
 				setkey_rc = setkey_history(b, 1, idx, prov, route, cfg, ki, kalg, pub, item, &eff_alg, &eff_key, &e_ki, &e_kalg, &e_pub);
 				break;
+			case 9: {
+				char *wt;
+				cx.mode = 4; cx.warm_alg = z->present ? natural_alg(&z->k) : JWT_ALG_NONE;
+				jwt_builder_setcb(b, the_cb, &cx); eff_alg = cfg; eff_key = item != NULL;
+				wt = jwt_builder_generate(b); free(wt);
+				jwt_builder_error_clear(b);
+				if (cx.total == 0) cx.total = 1;
+				break;
+			}
+			case 8: {
+				const jwk_item_t *o;
+				if (other_ki < 0) vh_harness_fail("route 8 needs oct:64 in the zoo");
+				o = get_item(prov, other_ki, JWT_ALG_HS512, 0);
+				if (do_setkey(b, 1, JWT_ALG_NONE, o)) vh_harness_fail("route 8 preset refused");
+				log_setkey(1, idx, prov, route, JWT_ALG_NONE, other_ki, JWT_ALG_HS512, 0, 0, b);
+				cx.mode = 1; jwt_builder_setcb(b, the_cb, &cx); eff_alg = cfg; eff_key = item != NULL;
+				break;
+			}
 			}
 			if (route < 5) printf("[\"T\",%ld,%d,%d,%d,%d,%d,%d,%d,%d]\n", idx, prov, route, cfg, ki, kalg, pub, setkey_rc, jwt_builder_error(b));
 			jwt_builder_error_clear(b);
